@@ -31,6 +31,7 @@ func systematicCases() []genCase {
 		sysCases = append(sysCases, famLogicValues()...)
 		sysCases = append(sysCases, famInputTyping()...)
 		sysCases = append(sysCases, famRecursionLocals()...)
+		sysCases = append(sysCases, famSignedLiterals()...)
 	})
 	return sysCases
 }
@@ -439,5 +440,26 @@ func famRecursionLocals() []genCase {
 	add("function w(n, arr,   own, r) { own[\"o\" n]; if (n > 0) { r = w(n - 1, own) \",\" w(n - 1, own) } return r \"[\" length(own) \"/\" length(arr) \"]\" }\nBEGIN { print w(3, G), length(G) }")
 	// delete of the whole local array in a child must not empty the parent's
 	add("function d(n,   loc) { loc[1]; loc[2]; if (n > 0) { d(n - 1); d(n - 1) } else delete loc; return length(loc) }\nBEGIN { print d(0), d(1), d(2) }")
+	return out
+}
+
+// famSignedLiterals: a sign in front of a number literal is an operator applied to the literal;
+// the literal itself, elsewhere in the program, keeps its own value (-0 and 0 are different
+// numbers under printf and atan2; -1 and 1, -0.5 and 0.5 share digits only).
+func famSignedLiterals() []genCase {
+	var out []genCase
+	lits := []string{"0", "0.0", "0e0", "1", "0.5", "1e300", "2"}
+	for _, l := range lits {
+		for _, sign := range []string{"-", "+", "- -", "-+"} {
+			for _, order := range []int{0, 1} {
+				a, b := sign+l, l
+				if order == 1 {
+					a, b = l, sign+l
+				}
+				out = append(out, mk("signed-literals", fmt.Sprintf("BEGIN { printf \"%%g %%g %%.2f %%e|\", %s, %s, %s, %s; x = %s; y = %s; printf \"%%g %%g %%s %%s|\", x, y, x, y; print atan2(%s, -1) < 0, atan2(%s, -1) < 0, (x == y), %s %s }\n", a, b, b, a, a, b, a, b, l, l), ""))
+				out = append(out, mk("signed-literals", fmt.Sprintf("function f(p) { return sprintf(\"%%g\", p) }\n{ print f(%s), f(%s), f($1 * %s), f(%s * $1) }\n", a, b, a, b), "0\n-1\n"))
+			}
+		}
+	}
 	return out
 }
